@@ -16,7 +16,7 @@ func init() {
 		ID:         "C24",
 		Level:      "other",
 		Technique:  "SSA width-provenance dataflow (ParseFloat width → float32 narrowing) + kind-context table conformance + resolver-propagation rule over options literals (static)",
-		Explain:    "Decides structural necessary conditions of the prototext round trip: (1) no float32 field value is produced by parsing the decimal at width 64 and narrowing (double rounding breaks bit-for-bit round trip of floats); (2) in every Kind-dependent branch of the text encoder/decoder the token accessors, Value accessors/constructors and bitSize constants agree with the Kind per the protobuf scalar table; (3) the codec uses one resolver throughout: the global registry only as the default of a nil Resolver option, and the wire decoding of Any.value for expansion forwards the codec's Resolver (else extensions known only to that resolver are dropped from an expanded Any); (4) a bracketed name written from message content (the type URL of an expanded Any) is first validated by running the text reader on it, so the writer never emits a name outside the reader's grammar; bracketed names from descriptors need no guard. (5) field names are written only from TextName(), the inverse of the reader's ByTextName lookup and of the bracketed extension form.",
+		Explain:    "Decides structural necessary conditions of the prototext round trip: (1) no float32 field value is produced by parsing the decimal at width 64 and narrowing (double rounding breaks bit-for-bit round trip of floats); (2) in every Kind-dependent branch of the text encoder/decoder the token accessors, Value accessors/constructors and bitSize constants agree with the Kind per the protobuf scalar table; (3) the codec uses one resolver throughout: the global registry only as the default of a nil Resolver option, and the wire decoding of Any.value for expansion forwards the codec's Resolver (else extensions known only to that resolver are dropped from an expanded Any); (4) a bracketed name written from message content (the type URL of an expanded Any) is first validated by running the text reader on it, so the writer never emits a name outside the reader's grammar; bracketed names from descriptors need no guard. (5) field names are written only from TextName(), the inverse of the reader's ByTextName lookup and of the bracketed extension form. Also: the value of an Any rebuilt from its expanded text form is marshaled with Deterministic: true.",
 		NotCovered: "the round trip on concrete values, extensions/groups/Any expansion, and whitespace/indent options; only the listed structural clauses are decided.",
 		Quick:      all("./encoding/prototext"),
 		Thorough:   all("./..."),
@@ -33,8 +33,8 @@ func init() {
 		ID:         "C39",
 		Level:      "other",
 		Technique:  "SSA width-provenance dataflow + kind-context table conformance + finite case analysis of the bytes escaper over all byte values (static)",
-		Explain:    "Decides structural necessary conditions of default-value round trip: (1) a FloatKind default is never parsed at width 64 and narrowed (double rounding); (2) in every Kind-dependent branch of defval.Marshal/Unmarshal the parse/format width constants and Value constructors/accessors agree with the Kind; (3) for every byte value 0..255 (finite case analysis of marshalBytes) a bytes default is written raw only if printable and not a quote/backslash, as a C escape whose letter denotes the byte, or as a numeric escape of the fixed maximal width the text-format reader consumes, so the greedy reader recovers the byte whatever follows.",
-		NotCovered: "the text-format reader side of the bytes escape (decided under C25), enum lookup; value-level equality.",
+		Explain:    "Decides structural necessary conditions of default-value round trip: (1) a FloatKind default is never parsed at width 64 and narrowed (double rounding); (2) in every Kind-dependent branch of defval.Marshal/Unmarshal the parse/format width constants and Value constructors/accessors agree with the Kind; (3) for every byte value 0..255 (finite case analysis of marshalBytes) a bytes default is written raw only if printable and not a quote/backslash, as a C escape whose letter denotes the byte, or as a numeric escape of the fixed maximal width the text-format reader consumes, so the greedy reader recovers the byte whatever follows. Also: the GoTag enum default is the parsed number (not the looked-up value's Number(), which is 0 for placeholder values; found D31); unmarshalBytes reads the escape language marshalBytes writes with the text-format string decoder; protodesc tests default_value for presence, not for emptiness.",
+		NotCovered: "value-level equality beyond the clauses named; the float formatting itself (strconv).",
 		Quick:      all("./internal/encoding/defval", "./reflect/protodesc"),
 		Thorough:   all("./..."),
 		Run: func(c *Ctx) {
